@@ -23,5 +23,7 @@ func verifObserveBytes(label string, b []byte)
 func verifObserveString(label string, s string)
 func verifQuiesce()
 func verifSetBudget(n int)
+func verifExplore(mapOrderBudget int, sched int)
+func verifNativeRepeat(n int) int
 func verifTerminates(budget int, label string)
 func verifTag(n int) func()
